@@ -9,7 +9,10 @@ from mc import evidence, explore, harness as H, par, peer as P, report, runner, 
 from props import faultspace as F
 
 PID = 'C19'
-RATE_BEHAVIOURS = ['normal', 'exceeded', 'silent', 'close', 'refuse', 'refuse-async', 'timeout']
+# '<errno>-async': the non-blocking connect of a rate-check connection fails later with that error (reported by the next recv): the
+# error numbers the tool's handler names - refused, reset, broken pipe, timed out
+ASYNC_ERRNO = {'refuse-async': 'refuse', 'etimedout-async': 110, 'econnreset-async': 104, 'epipe-async': 32}
+RATE_BEHAVIOURS = ['normal', 'exceeded', 'silent', 'close', 'refuse', 'refuse-async', 'timeout', 'etimedout-async', 'econnreset-async', 'epipe-async', 'reset']
 
 
 def judge(res, arch, plan, rate, st, detail):
@@ -102,7 +105,7 @@ def rate_server(beh, kexes, nkeys):
     def cb(i, counter=[0]):
         return 'normal'
     srv = P.Server(label='R', kex=kexes, key=keys, host_keys=P.standard_host_keys(keys), gex=P.GexPolicy([2048, 4096], P.STRICT),
-                   banner=b'SSH-2.0-OpenSSH_8.9p1', async_refuse=(beh == 'refuse-async'))
+                   banner=b'SSH-2.0-OpenSSH_8.9p1', async_refuse=(beh in ASYNC_ERRNO or (isinstance(beh, tuple) and any(b in ASYNC_ERRNO for b in beh))))
     state = {'audit_done': False}
 
     def conn_behaviour(i):
@@ -112,8 +115,9 @@ def rate_server(beh, kexes, nkeys):
             return 'normal'
         if isinstance(beh, tuple):          # a repeating pattern of per-connection answers
             state['n'] = state.get('n', -1) + 1
-            return beh[state['n'] % len(beh)]
-        return {'refuse-async': 'refuse'}.get(beh, beh)
+            b = beh[state['n'] % len(beh)]
+            return ASYNC_ERRNO.get(b, b)
+        return ASYNC_ERRNO.get(beh, beh)
     srv.conn_behaviour = conn_behaviour
     srv._state = state
     return srv
@@ -255,6 +259,10 @@ def run(tier, seed):
                 continue
             for latency in ((0.01,) if tier == 'quick' else (0.01, 0.05)):
                 rate_tasks.append((pat, ('curve25519-sha256',), 1, 'standard', latency))
+    for pat in (('normal', 'etimedout-async'), ('etimedout-async', 'normal', 'normal'), ('normal', 'normal', 'econnreset-async'), ('normal', 'epipe-async'), ('exceeded', 'etimedout-async'),
+                ('normal', 'reset'), ('silent', 'etimedout-async')):
+        for latency in (0.01, 0.1):
+            rate_tasks.append((pat, ('curve25519-sha256',), 1, 'standard', latency))
     par.pmap(work_rate, rate_tasks, stats=st)
     mt = [(k, n, skip, f) for k in (('curve25519-sha256',), ('diffie-hellman-group14-sha256', 'diffie-hellman-group-exchange-sha256')) for n in (1, 3)
           for skip in (True, False) for f in ('text', 'json')]
